@@ -172,6 +172,8 @@ def run_check(cd, tier, seed, write=True):
         if g is None:
             raise Infra('conformance graph failed: %s\n%s' % (r.error or r.violated, r.out[-2000:]))
         lim = cd.conf_limit.get(tier)
+        if tier == 'thorough' and (lim is None or lim > 20000):
+            lim = 20000                       # per conformance graph: keeps a thorough run in the ten-minute range
         if lim is not None:
             lim = max(200, lim // len(conf_list))
         paths, nedges = core.edge_cover(g, limit=lim, seed=seed)
